@@ -19,6 +19,7 @@
 package dag
 
 import (
+	"bytes"
 	"crypto"
 	"encoding/base64"
 	"fmt"
@@ -47,6 +48,12 @@ func ParseTransaction(input []byte) (Transaction, error) {
 	} else if len(message.Signatures()) > 1 {
 		return nil, transactionValidationError("JWS contains multiple signature")
 	}
+	// The transaction reference is the hash of the input, but the JWS parser accepts many inputs for the same signed content
+	// (JSON serialization, base64 padding, other alphabet, non-zero trailing bits, white space). Only the canonical compact
+	// serialization is a transaction (RFC004 §3.1), otherwise anyone can derive new "signed" transactions from an existing one.
+	if !isCanonicalCompactJWS(input) {
+		return nil, transactionValidationError("JWS is not in canonical compact serialization form")
+	}
 
 	signature := message.Signatures()[0]
 	headers := signature.ProtectedHeaders()
@@ -71,6 +78,22 @@ func ParseTransaction(input []byte) (Transaction, error) {
 		}
 	}
 	return result, nil
+}
+
+// isCanonicalCompactJWS checks that the input consists of exactly 3 dot-separated segments,
+// each of which is the unpadded base64url encoding of the bytes it decodes to.
+func isCanonicalCompactJWS(input []byte) bool {
+	segments := bytes.Split(input, []byte{'.'})
+	if len(segments) != 3 {
+		return false
+	}
+	for _, segment := range segments {
+		decoded, err := base64.RawURLEncoding.Strict().DecodeString(string(segment))
+		if err != nil || base64.RawURLEncoding.EncodeToString(decoded) != string(segment) {
+			return false
+		}
+	}
+	return true
 }
 
 func transactionValidationError(format string, args ...interface{}) error {
